@@ -52,8 +52,8 @@ ASSUMPTIONS = [
     "Tensor has no uncompress(): 'uncompressing a tensor' is tensor.getRoot().uncompress([shape])",
     "an unowned all-default Fiber of depth >= 2 cannot carry the shape of its lower levels (shape is a per-fiber "
     "attribute): for it only the top-level shape is checked and only uncompress(dims) is demanded",
-    "the YAML / dictionary formats carry no default (documented Todo of Tensor.fromYAMLfile): a loaded tensor gets "
-    "setDefault(original default) before the library's == is consulted, a loaded fiber gets default= at depth 1; "
+    "a tensor's YAML file carries its non-zero leaf default (P44, repaired); the FIBER YAML / dictionary formats carry "
+    "none: a loaded fiber gets default= at depth 1; "
     "for deeper fibers / the dictionary form with a non-zero default the library == is consulted only when no 0 "
     "is stored (the independent raw-content comparison is always made)",
     "fromRandom: non-unit density on upper ranks only with default 0 (docstring); default None not generated",
@@ -62,6 +62,7 @@ ASSUMPTIONS = [
 
 F_UNC = "P10-uncompress-all-default-indexerror"
 F_NAME = "P10-yaml-load-drops-tensor-name"
+F_YAML_DEFAULT = "P44-tensor-yaml-drops-nonzero-default"
 F_TUPLE = "P10-yaml-tuple-coords-not-loadable"
 
 RANK_POOLS = [["M", "K", "N", "P"], ["A", "B", "C", "D"], ["X1", "Y0", "Z", "W2"]]
@@ -388,14 +389,23 @@ def roundtrip_tensor(what, t, tmp, rec, expect=None):
     if got != ref:
         raise Violation("tensor-yaml", f"{what}: loaded tensor holds {_pts(got)}, dumped {_pts(ref)}")
     check_sorted(what + " loaded", t2.getRoot(), depth)
-    if default != 0:
-        t2.setDefault(default)
+    if depth > 0 and Payload.get(t2.getDefault()) != default:
+        # "gives an equal object ... for all defaults": the default decides which stored values are content
+        if findings.is_open(ID, F_YAML_DEFAULT):
+            rec.known(F_YAML_DEFAULT)
+            t2.setDefault(default)
+        else:
+            raise Violation("yaml-default", f"{what}: loaded tensor has leaf default {t2.getDefault()!r}, dumped "
+                            f"{default!r}")
     lib_eq(t2, t, f"{what}: Tensor.fromYAMLfile(dump(t)) vs t")
     # the older loading form, the constructor itself (Tensor(yamlfile)), reads the same file
     if depth > 0:
         with _quiet():
             t3 = Tensor(path) if len(leaves) % 2 else Tensor(yamlfile=path)
         got3 = (_copy_ids(t3.getRankIds()), t3.getShape(), t3.getName(), content_map(t3.getRoot(), depth, default))
+        if Payload.get(t3.getDefault()) != default and not findings.is_open(ID, F_YAML_DEFAULT):
+            raise Violation("yaml-default", f"{what}: Tensor(yamlfile) has leaf default {t3.getDefault()!r}, dumped "
+                            f"{default!r}")
         if got3 != (rank_ids, shape, name, ref):
             raise Violation("tensor-yaml", f"{what}: Tensor(yamlfile) gives rank ids {got3[0]}, shape {got3[1]}, name "
                             f"{got3[2]!r}, content {_pts(got3[3])}; dumped {rank_ids}, {shape}, {name!r}, {_pts(ref)}")
@@ -784,7 +794,23 @@ def _pin_tuple():
     return None if ok else f"loaded coordinates {t2.getRoot().coords}, shape {t2.getShape()}"
 
 
-PINNED = {F_UNC: _pin_uncompress, F_NAME: _pin_name, F_TUPLE: _pin_tuple}
+def _pin_yaml_default():
+    import tempfile
+    t = Tensor.fromUncompressed(["M", "K"], [[5, 5], [0, 5]], default=5)
+    d = tempfile.mkdtemp(prefix="vf-c13-pin-")
+    try:
+        path = os.path.join(d, "t.yaml")
+        t.dump(path)
+        u = Tensor.fromYAMLfile(path)
+        if Payload.get(u.getDefault()) != 5 or not (u == t):
+            return (f"Tensor [[5,5],[0,5]] with default 5 dumped and loaded: default {u.getDefault()!r}, "
+                    f"loaded == original is {u == t}")
+        return None
+    finally:
+        shutil.rmtree(d, ignore_errors=True)
+
+
+PINNED = {F_UNC: _pin_uncompress, F_NAME: _pin_name, F_TUPLE: _pin_tuple, F_YAML_DEFAULT: _pin_yaml_default}
 
 
 PARTS = [
